@@ -193,29 +193,26 @@ def pack (fmt : Fmt) (s e m : Int) : Int :=
   | .sp => Gen.C12.fpnum_pack_sp s e m
   | .dp => Gen.C12.fpnum_pack_dp s e m
 
-def from_ieee754_hp (v : Int) : Option FPNum := do
+/-- the common body of the three `from_ieee754_*`; the literals of each copy are the arguments:
+    `e_max` (0x1F / 0xFF / 0x7FF), `e_sub` (-14 / -126 / -1022), `e_bias` (15 / 127 / 1023), `mb` (10 / 23 / 52) -/
+def from_parts (s e m : Int) (e_max e_sub e_bias : Int) (mb : Nat) : Option FPNum :=
+  let s : Int := if s == 0 then 1 else -1
+  if e == e_max then some (set_semp fresh s e m 0)          -- special cases are signaled with p = 0
+  else
+    let em : Int × Int := if e == 0 then (e_sub, m) else (e - e_bias, Py.lor (Py.shl 1 mb) m)
+    adjust_semp (set_semp fresh s em.1 em.2 (Py.shl 1 mb))
+
+def from_ieee754_hp (v : Int) : Option FPNum :=
   let (s, e, m) := unpack_ieee754_hp_parts v
-  let s : Int := if s == 0 then 1 else -1
-  if e == 0x1F then return set_semp fresh s e m 0
-  let (e, m) : Int × Int := if e == 0 then (-14, m) else (e - 15, Py.lor (Py.shl 1 10) m)
-  let p := Py.shl 1 10
-  adjust_semp (set_semp fresh s e m p)
+  from_parts s e m 0x1F (-14) 15 10
 
-def from_ieee754_sp (v : Int) : Option FPNum := do
+def from_ieee754_sp (v : Int) : Option FPNum :=
   let (s, e, m) := unpack_ieee754_sp_parts v
-  let s : Int := if s == 0 then 1 else -1
-  if e == 0xFF then return set_semp fresh s e m 0
-  let (e, m) : Int × Int := if e == 0 then (-126, m) else (e - 127, Py.lor (Py.shl 1 23) m)
-  let p := Py.shl 1 23
-  adjust_semp (set_semp fresh s e m p)
+  from_parts s e m 0xFF (-126) 127 23
 
-def from_ieee754_dp (v : Int) : Option FPNum := do
+def from_ieee754_dp (v : Int) : Option FPNum :=
   let (s, e, m) := unpack_ieee754_dp_parts v
-  let s : Int := if s == 0 then 1 else -1
-  if e == 0x7FF then return set_semp fresh s e m 0
-  let (e, m) : Int × Int := if e == 0 then (-1022, m) else (e - 1023, Py.lor (Py.shl 1 52) m)
-  let p := Py.shl 1 52
-  adjust_semp (set_semp fresh s e m p)
+  from_parts s e m 0x7FF (-1022) 1023 52
 
 def from_ieee754 (fmt : Fmt) (v : Int) : Option FPNum :=
   match fmt with
@@ -233,53 +230,48 @@ def stdUpLoop : Nat → Int → Int → Int → Option (Int × Int)
   | 0, _, _, _ => none
   | f+1, pstd, m, p => if p < pstd then stdUpLoop f pstd (Py.shl m 1) (Py.shl p 1) else some (m, p)
 
-def convert (x : FPNum) (fmt : Fmt) : Option Int := do
-  let mut s := x.s
-  let mut e := x.e
-  let mut m := x.m
-  let mut p := x.p
-  s := if s > 0 then 0 else 1
-  -- deal with special cases
-  if x.infinity || x.nan then
-    match fmt with
-    | .hp => return pack .hp (if x.nan then 0 else s) 0x1F (if x.nan then IEEE754_HP_NAN_MANTISA else IEEE754_HP_INF_MANTISA)
-    | .sp => return pack .sp (if x.nan then 0 else s) 0xFF (if x.nan then IEEE754_SP_NAN_MANTISA else IEEE754_SP_INF_MANTISA)
-    | .dp => return pack .dp (if x.nan then 0 else s) 0x7FF (if x.nan then IEEE754_DP_NAN_MANTISA else IEEE754_DP_INF_MANTISA)
-  if m == 0 then return pack fmt s 0 0
-  let (e_bias, e_mask, p_std) : Int × Int × Int :=
-    match fmt with
-    | .hp => (15, 0x1F, Py.shl 1 10)
-    | .sp => (127, 0xFF, Py.shl 1 23)
-    | .dp => (1023, 0x7FF, Py.shl 1 52)
-  if e < -(e_bias - 1) then
-    -- subnormal: `while (e < -(e_bias-1)): e += 1; p = p << 1`, exactly (−(e_bias−1) − e) iterations
-    p := Py.shl p (-(e_bias - 1) - e).toNat
-    e := 0
+/-- "compute the standard precision": `while (p > p_std): …` then `while (p < p_std): …`  ↦ m -/
+def stdPrec (p_std m p : Int) : Option Int := do
+  let (m1, p1) ← stdDownLoop (p.toNat + 1) p_std m p
+  let (m2, _) ← stdUpLoop (p_std.toNat + 1) p_std m1 p1
+  return m2
+
+/-- the format-independent part of `convert` for a finite non-zero number  ↦ (exponent field, mantissa field) -/
+def convertFinite (e_bias e_mask p_std : Int) (e m p : Int) : Option (Int × Int) :=
+  -- `if (e < -(e_bias-1)): while (e < -(e_bias-1)): e += 1; p = p << 1` (exactly −(e_bias−1) − e iterations) `; e = 0`
+  -- `else: if (e == -(e_bias-1)) and (p > m): e = 0  else: e = e + e_bias`
+  let ep : Int × Int :=
+    if e < -(e_bias - 1) then (0, Py.shl p (-(e_bias - 1) - e).toNat)
+    else if e == -(e_bias - 1) && p > m then (0, p)
+    else (e + e_bias, p)
+  if ep.1 < 0 then some (0, 0)                         -- very small number
+  else if ep.1 ≥ e_mask then some (e_mask, 0)          -- infinity
+  else if ep.1 == 0 then                               -- subnormal numbers do not need further mantisa processing
+    (stdPrec p_std m ep.2).map (fun m' => (0, m'))
   else
-    if e == -(e_bias - 1) && p > m then e := 0
-    else e := e + e_bias
-  if e < 0 then
-    e := 0
-    m := 0
-  else if e ≥ e_mask then
-    e := e_mask
-    m := 0
-  else
-    if e == 0 then pure ()
-    else
-      if p > m then
-        m := Py.shl m 1
-        e := e - 1
-      if m ≥ Py.shl p 1 then
-        p := Py.shl p 1
-        e := e + 1
-      if Py.land m p == 0 then none        -- assert(m & p)
-      m := Py.lxor m p
-    let (m1, p1) ← stdDownLoop (p.toNat + 1) p_std m p
-    let (m2, p2) ← stdUpLoop (p_std.toNat + 1) p_std m1 p1
-    m := m2
-    p := p2
-  return pack fmt s e m
+    let me : Int × Int := if ep.2 > m then (Py.shl m 1, ep.1 - 1) else (m, ep.1)
+    let pe : Int × Int := if me.1 ≥ Py.shl ep.2 1 then (Py.shl ep.2 1, me.2 + 1) else (ep.2, me.2)
+    if Py.land me.1 pe.1 == 0 then none                -- assert(m & p)
+    else (stdPrec p_std (Py.lxor me.1 pe.1) pe.1).map (fun m' => (pe.2, m'))
+
+/-- per format: (e_bias, e_mask, p_std, NaN mantissa, infinity mantissa) -/
+def fmtConsts (fmt : Fmt) : Int × Int × Int × Int × Int :=
+  match fmt with
+  | .hp => (15, 0x1F, Py.shl 1 10, IEEE754_HP_NAN_MANTISA, IEEE754_HP_INF_MANTISA)
+  | .sp => (127, 0xFF, Py.shl 1 23, IEEE754_SP_NAN_MANTISA, IEEE754_SP_INF_MANTISA)
+  | .dp => (1023, 0x7FF, Py.shl 1 52, IEEE754_DP_NAN_MANTISA, IEEE754_DP_INF_MANTISA)
+
+/-- `convert` up to the final `pack_ieee754_<fmt>_parts(s, e, m)`  ↦ (s, e, m) -/
+def convertParts (x : FPNum) (e_bias e_mask p_std nanM infM : Int) : Option (Int × Int × Int) :=
+  let s : Int := if x.s > 0 then 0 else 1
+  if x.infinity || x.nan then                           -- deal with special cases
+    some (if x.nan then 0 else s, e_mask, if x.nan then nanM else infM)
+  else if x.m == 0 then some (s, 0, 0)
+  else (convertFinite e_bias e_mask p_std x.e x.m x.p).map (fun em => (s, em.1, em.2))
+
+def convert (x : FPNum) (fmt : Fmt) : Option Int :=
+  let c := fmtConsts fmt
+  (convertParts x c.1 c.2.1 c.2.2.1 c.2.2.2.1 c.2.2.2.2).map (fun t => pack fmt t.1 t.2.1 t.2.2)
 
 /-- `adjust_sem(s, e, m)` with a float `m` (exact dyadic), as called by `convert_float_to_semp` -/
 def fracLoop : Nat → Dy → Int → Option (Dy × Int)
